@@ -120,8 +120,8 @@ func advPool(seed int64) []float64 {
 	for i := 0; i < 200; i++ {
 		add(math.Float64frombits(uint64(r.Intn(2047))<<52 | (r.Uint64() & (1<<52 - 1)) | uint64(r.Intn(2))<<63))
 		add(float64(r.Int63n(1<<40)) / float64(int64(1)<<uint(r.Intn(30)))) // dyadic rationals
-		add(r.NormFloat64() * 2.5)                                            // what weight mutation produces
-		add(math.Round(r.Float64()*1e17) / 1e17)                              // 17 significant digits
+		add(r.NormFloat64() * 2.5)                                          // what weight mutation produces
+		add(math.Round(r.Float64()*1e17) / 1e17)                            // 17 significant digits
 	}
 	r.Shuffle(len(pool), func(i, j int) { pool[i], pool[j] = pool[j], pool[i] })
 	return pool
